@@ -106,17 +106,17 @@ func PipeData(down io.ReadWriteCloser, up io.ReadWriteCloser) error {
 	case err := <-downPipe:
 		log.Debugf("Closing piped upstream connection due to '%v': %+v", err, up)
 		TryClose(up)
+		log.Debugf("Closing piped downstream connection: %+v", down)
+		TryClose(down)
 		if err != io.EOF {
-			log.Debugf("Closing piped downstream connection: %+v", down)
-			TryClose(down)
 			return err
 		}
 	case err := <-upPipe:
 		log.Debugf("Closing piped downstream connection due to '%v': %+v", err, down)
 		TryClose(down)
+		log.Debugf("Closing piped upstream connection: %+v", up)
+		TryClose(up)
 		if err != io.EOF {
-			log.Debugf("Closing piped upstream connection: %+v", up)
-			TryClose(up)
 			return err
 		}
 	}
